@@ -88,6 +88,7 @@ def _post(M, K, mode, squash):
         f1, f2, a2, e1, e2 = c.ghost['in']
         calls = c.ghost.get('coo', [])
         c.oblige('post:one-coo_matrix-call', z3.BoolVal(len(calls) == 1), 'post')
+        c.oblige('post:no-write-reached-the-callers-arrays', z3.BoolVal(c.ghost.get('frame_writes', 0) == 0), 'post')
         if len(calls) != 1:
             return
         st = calls[0]
@@ -135,6 +136,7 @@ def units(tier):
                     continue
                 u = Unit('holospectrum[M=%d,K=%d,%s,squash=%s]' % (M, K, mode, sq), 'emd/spectra.py', 'holospectrum', _mk(M, K, mode, sq), _post(M, K, mode, sq),
                          module=ES, ns={'sparse': SparseShim}, inline=inl)
+                u.frame = True          # no write may reach the caller's frequency / amplitude / edge arrays
                 U.append(u)
     return U
 
